@@ -507,3 +507,101 @@ T('c14-twin-materialise-early', 'C14', """        old_obj_hashkeys = []
         hashkeys = list(hashkeys)
 
         # We load data in this cache""")
+
+# ------------------------------------------------------------------------------------------------ C15
+M('c15-d4-revert', 'C15', """            '--exclude',
+            'packs.idx-wal',
+""", "", 'C15.R3', B)
+M('c15-packs-before-index', 'C15', """    # step 4: transfer the packed files
+    packs_path_rel = packs_path.relative_to(container_root_path)
+    manager.call_rsync(packs_path, path, link_dest=prev_backup)
+""", """    packs_path_rel = packs_path.relative_to(container_root_path)
+""", 'C15.R1', B)
+M('c15-copy-live-index', 'C15', "        manager.call_rsync(sqlite_temp_loc, path, link_dest=prev_backup)", "        manager.call_rsync(sqlite_path, path, link_dest=prev_backup)", 'C15.R', B)
+M('c15-rsync-ignores-exit', 'C15', "        if res.returncode != 0:\n            raise BackupError(f'rsync failed for: {src!s} to {dest!s}')", "        if res.returncode != 0:\n            LOGGER.warning('rsync failed')", 'C15.R4', B)
+M('c15-swallow-backup-error', 'C15', """        backup_func(
+            live_folder,
+            last_folder,
+        )
+""", """        try:
+            backup_func(
+                live_folder,
+                last_folder,
+            )
+        except BackupError:
+            LOGGER.warning('backup failed')
+""", 'C15.R4', B)
+M('c15-drop-loose-exclude', 'C15', """            '--exclude',
+            str(loose_path_rel),
+            '--exclude',
+            'packs.idx',""", """            '--exclude',
+            'packs.idx',""", 'C15.R3', B)
+T('c15-twin-glob-exclude', 'C15', """            '--exclude',
+            'packs.idx',
+            # also the SQLite side files (WAL mode) of the live index must not be copied:
+            # the index in the backup is the consistent dump transferred in step 3
+            '--exclude',
+            'packs.idx-wal',
+            '--exclude',
+            'packs.idx-shm',""", """            '--exclude',
+            'packs.idx*',""", B)
+
+# ------------------------------------------------------------------------------------------------ C18
+M('c18-d1-dupfd', 'C18', "if hasattr(fcntl, 'F_FULLFSYNC') and (", "if hasattr(fcntl, 'F_FULLFSYNC') is not None and (", 'C18.R3', U)
+M('c18-dirfd-not-closed', 'C18', "        _fsync_function(dirfd)\n        os.close(dirfd)", "        _fsync_function(dirfd)", 'C18.R1', U)
+M('c18-no-dispose', 'C18', """            binding = self._container_session.bind
+            self._container_session.close()
+            if isinstance(binding, Engine):
+                binding.dispose()""", """            binding = self._container_session.bind
+            self._container_session.close()
+            if isinstance(binding, Engine):
+                pass""", 'C18.R1c')
+M('c18-funnel-no-close-loose', 'C18', """            finally:
+                # Close each loose file, if open
+                if last_open_file is not None:
+                    if not last_open_file.closed:
+                        last_open_file.close()
+""", """            finally:
+                pass
+""", 'C18.R2')
+M('c18-lazy-not-closed', 'C18', """                        yield metadata.hashkey, obj_reader, ObjectMeta(**meta)
+                        # Here I check if the LazyLooseStream that I passed has
+                        # been openeed - if so, I close it so I don't leave
+                        # open file streams around
+                        if lazy_loose_stream is not None and not lazy_loose_stream.closed:
+                            lazy_loose_stream.close_stream()
+                    else:
+                        yield metadata.hashkey, ObjectMeta(**meta)
+            finally:
+                if last_open_file is not None:
+                    if not last_open_file.closed:
+                        last_open_file.close()
+
+        # Collect loose hash keys""", """                        yield metadata.hashkey, obj_reader, ObjectMeta(**meta)
+                    else:
+                        yield metadata.hashkey, ObjectMeta(**meta)
+            finally:
+                if last_open_file is not None:
+                    if not last_open_file.closed:
+                        last_open_file.close()
+
+        # Collect loose hash keys""", 'C18.R2')
+M('c18-read-all-in-loop', 'C18', "            chunk = read_handle.read(self._CHUNKSIZE)\n            if chunk == b'':\n                # Returns an empty bytes object on EOF.\n                # Returns None", "            chunk = read_handle.read()\n            if chunk == b'':\n                # Returns an empty bytes object on EOF.\n                # Returns None", 'C18.R5')
+M('c18-open-not-closed', 'C18', """        with open(self._get_config_file(), 'w', encoding='utf8') as fhandle:
+            json.dump(""", """        fhandle = open(self._get_config_file(), 'w', encoding='utf8')
+        if True:
+            json.dump(""", 'C18.R1')
+M('c18-stream-outside-with', 'C18', """                    obj_dict['length'] = pack_handle.tell() - obj_dict['offset']
+                    # Here, we have appended the object to the pack file.""", """                    obj_dict['length'] = pack_handle.tell() - obj_dict['offset']
+                    _ = stream.read(1)
+                    # Here, we have appended the object to the pack file.""", 'C18.R4')
+M('c18-exit-no-close', 'C18', """    def __exit__(self, exc_type: Any, exc_value: Any, traceback: Any) -> None:
+        \"\"\"Close the session when exiting the context.\"\"\"
+        self.close()""", """    def __exit__(self, exc_type: Any, exc_value: Any, traceback: Any) -> None:
+        \"\"\"Close the session when exiting the context.\"\"\"
+        self._close_operation_session()""", 'C18.R1c')
+M('c18-lazyopener-no-close', 'C18', """        if self._fhandle is not None:
+            if not self._fhandle.closed:
+                self._fhandle.close()
+        self._fhandle = None""", """        self._fhandle = None""", 'C18.R1', U)
+T('c18-twin-chunk-const', 'C18', "    _CHUNKSIZE = 65536\n", "    _CHUNKSIZE = 131072\n")
